@@ -261,7 +261,7 @@ def api_init_fault(rng, T, total_replies=None, total_bytes=None):
     return spec
 
 
-def conn_check(rng):
+def conn_check(rng, drops=False):
     """C17 flavour"""
     zones = [z for z in ("MAIN", "ZONE2", "ZONE3", "ZONE4") if rng.random() < 0.5]
     lat = rng.choice([0.0, 0.06, 0.099, 0.1, 0.101, 0.15, 0.4, 1.2, 1.4, 1.6, 3.0])
@@ -275,6 +275,10 @@ def conn_check(rng):
         dev["eof_after_bytes"] = rng.randint(0, 80)
     elif r < 0.25:
         dev["silent_after"] = rng.randint(0, 4)
+    elif r < 0.37 and (drops or __import__("os").environ.get("VERIF_C17_DROPS")):
+        # (enabled once the L4 model has the close()-after-failed-connect path)
+        # the link drops at / right after opening the port (the reader can run connection_lost before connect() returns) or in mid-check
+        dev["drop_at"] = rng.choice([0, 0, 0.0001, 0.05, 0.15, 0.35, round(rng.uniform(0, 3.0), 3)])
     spec = {"kind": "conn_check", "device": dev, "zones": zones, "final_wait": 6}
     if rng.random() < 0.05:
         spec["open_fails"] = True
